@@ -74,6 +74,8 @@ def run(tier):
         outs = I.inline(st, ixx, f2, args, node, rty)
         for s2, v in outs:
             s2.tags['c11.existing'] = s2.canon(v.t)
+            # every lookup the classifier makes, with the key it was made under
+            s2.tags['c11.lookups'] = tuple(s2.tags.get('c11.lookups', ())) + ((tuple(s2.canon(a.t) for a in args[1:3]), s2.canon(v.t)),)
         return outs
 
     def setup(I, st):
@@ -140,6 +142,16 @@ def run(tier):
             else:
                 rep.ok('R11.b')
         rep.check(nmatch > 0, 'R11.b', 'scan|never-matches', 'no iteration of the scan compares an entry with the own address', node=fn, function='derive_session_event')
+    # the "known session" the changed-transaction verdict rests on is the session of this mapper under the Discover's own
+    # generation: every lookup is made with (real source of the frame, generation field of the frame) - no second lookup under
+    # another key (a byte-swapped generation, another address) may decide it
+    want_gen = mk_cat((('in', 'frame', 33), ('in', 'frame', 32)))
+    for st, v in outs:
+        for (mac_t, gen_t), _r in st.tags.get('c11.lookups', ()):
+            okm = mac_t == ('ptr', 'frame', C(24))
+            okg = st.same(gen_t, want_gen)
+            rep.check(okm and okg, 'R11.c', 'table|lookup-key', 'the classifier looks a session up under (%s, %s), not under (real source of the frame, generation of the Discover): a session '
+                      'of another key then counts as "known"' % (short(mac_t), short(gen_t)), node=fn, function='derive_session_event')
     # (c) result table
     want_all = set()
     for st, v in outs:
